@@ -9,6 +9,9 @@ func checkC06(p *Prog, r *Report) {
 	r.Trusted = []string{"cosmos-sdk v0.47.12 x/nft keeper"}
 	pnftAuthRules(p, r, "C06")
 	wireAnte(p, r, "C06")
+	// the owner every view (and therefore the genesis export, which is imported back as the ownership) reports is the stored
+	// owner record of that very token
+	pnftViewsAgree(p, r, func(rule, rest string) string { return rule + ":C06:" + rest })
 	checkSignBytesBindMessage(p, r, "C06", "x/pnft")
 	checkInitGenesisCallers(p, r, "C06", "x/pnft")
 	wireKeyOwnership(p, r, BuildWire(p), "C06", "pnft", []string{"x/pnft/keeper.NewKeeper"}, "denoms, tokens and their owners")
